@@ -254,6 +254,10 @@ func RunScenario(t *testing.T, sc *Scenario, keepLog bool) (*Report, error) {
 				add("C19.value", r, "%s: in simulation: %s; alone: %s", describe(r), got.Brief(), a.Brief())
 			}
 		}
+		for _, c := range run.changed {
+			add("C19.value", opRef{c.task, c.op}, "%s: the returned value changed after the call returned (it shares storage with the document or with a later call): at return %s, at the end of the scenario %s",
+				describe(opRef{c.task, c.op}), c.before, c.after)
+		}
 		w.checkImmutable(rep, "C19.immutable")
 
 	case "C20":
